@@ -7,6 +7,10 @@ var (
 	// ErrKeyOutOfOrder means keys to create Trie are not ascendingly ordered.
 	ErrKeyOutOfOrder = errors.New("keys not ascending sorted")
 
+	// ErrKeyTooLong means a run of keys shares a prefix too long to be stored as
+	// a step(65535 4-bit words) when inner prefixes are not stored.
+	ErrKeyTooLong = errors.New("common prefix of keys is too long")
+
 	// ErrIncompatible means it is trying to unmarshal data from an incompatible
 	// version.
 	ErrIncompatible = errors.New("incompatible with marshaled data")
